@@ -69,9 +69,18 @@ def gen_dynamic(sd, tr):
                 R.append({'rank': rank, 'p': pi, 'dims': dims, 'rs': c})
             # writes: a sample of the read combos x operators x right-hand-side kinds
             wc = g.sample(combos, min(len(combos), (14 if quick else 80)))
+            # targeted: strided leading axes with a non-zero start, long contiguous / strided last axis (vector store routes)
+            if rank >= 2:
+                lead = [[r for r in [(1, -1, 2), (1, d, 2), (0, -1, 2), (1, -1, 1), (d - 1, d, 1)] if admissible(False, d, *r)] for d in dims[:-1]]
+                dl = dims[-1]
+                lastax = [r for r in [(0, -1, 1), (1, -1, 1), (2, dl, 1), (0, -1, 2), (1, dl, 2), (0, dl - 1, 3)] if admissible(False, dl, *r)]
+                if all(lead) and lastax:
+                    for la in lastax:
+                        c = tuple(g.choice(a) for a in lead) + (la,)
+                        if c not in wc: wc.append(c)
             for c in wc:
                 for op in range(5):
-                    for rhs in g.sample([0, 1, 2, 3], 2 if quick else 4):
+                    for rhs in g.sample([0, 1, 2, 3, 4], 3 if quick else 5):
                         W.append({'rank': rank, 'p': pi, 'dims': dims, 'rs': c, 'op': op, 'rhs': rhs})
             # overlap: pairs of equal-extent ranges on the same parent
             bysz = {}
@@ -126,7 +135,8 @@ def cpp_dynamic(ty, want=('R', 'W', 'O')):
                 L.append('      if (rhs == 0) F.A(%s) %s (T)3;' % (va, op))
                 L.append('      else if (rhs == 1) F.A(%s) %s S(seq(0,n));' % (va, op))
                 L.append('      else if (rhs == 2) F.A(%s) %s S(seq(0,n))*(T)2 + (T)1;' % (va, op))
-                L.append('      else F.A(%s) %s B(%s);' % (va, op, va))
+                L.append('      else if (rhs == 3) F.A(%s) %s B(%s);' % (va, op, va))
+                L.append('      else F.A(%s) %s B(%s)*(T)2 + (T)1;' % (va, op, va))
                 L.append('    }')
             L.append('    std::printf("F %ld", id); int dmg = 0; for (int i = 0; i < 16; ++i) { if (F.pre[i] != (T)77) ++dmg; if (F.post[i] != (T)77) ++dmg; } std::printf(" %d\\n", dmg);')
             L.append('    vh_line("A", id, F.A.data(), %d); return; }' % n)
@@ -218,7 +228,8 @@ def expected_write(c, mv, ty):
         if c['rhs'] == 0: r = 3
         elif c['rhs'] == 1: r = 2 + (i * 7) % 11
         elif c['rhs'] == 2: r = (2 + (i * 7) % 11) * 2 + 1
-        else: r = 5 + (o * 3) % 7
+        elif c['rhs'] == 3: r = 5 + (o * 3) % 7
+        else: r = (5 + (o * 3) % 7) * 2 + 1
         A[o] = apply(c['op'], A[o], r, ty)
     return A
 
@@ -352,7 +363,7 @@ def gen_fixed(sd, tr):
                 for op in g.sample(range(5), 3 if quick else 5):
                     ty = tys[len(cases) % 4]
                     if ty == 'float' and op == 4: ty = 'double'
-                    cases.append({'kind': 'FW', 'ty': ty, 'dims': dims, 'rs': c, 'op': op, 'rhs': g.next() % 4})
+                    cases.append({'kind': 'FW', 'ty': ty, 'dims': dims, 'rs': c, 'op': op, 'rhs': g.next() % 5})
             # overlap with noalias: pairs of equal extents
             bysz = {}
             for c in combos: bysz.setdefault(tuple(rsize(False, d, *r) for d, r in zip(dims, c)), []).append(c)
@@ -404,7 +415,7 @@ def cpp_fixed(shard):
             L.append('  struct { alignas(64) T pre[16]; Tensor<T,%s> A; alignas(64) T post[16]; } F; for (int i = 0; i < 16; ++i) { F.pre[i] = (T)77; F.post[i] = (T)77; }' % dd)
             L.append('  for (size_t i = 0; i < %d; ++i) F.A.data()[i] = (T)(10 + i); Tensor<T,%s> B; for (size_t i = 0; i < %d; ++i) B.data()[i] = (T)(5 + (i * 3) %% 7);' % (n, dd, n))
             L.append('  Tensor<T,%s> Rt; for (size_t i = 0; i < %d; ++i) Rt.data()[i] = (T)(2 + (i * 7) %% 11);' % (ee, m))
-            rhs = ['(T)3', 'Rt', 'Rt*(T)2 + (T)1', 'B(%s)' % args][c['rhs']]
+            rhs = ['(T)3', 'Rt', 'Rt*(T)2 + (T)1', 'B(%s)' % args, 'B(%s)*(T)2 + (T)1' % args][c['rhs']]
             L.append('  F.A(%s) %s %s;' % (args, op, rhs))
             L.append('  int dmg = 0; for (int i = 0; i < 16; ++i) { if (F.pre[i] != (T)77) ++dmg; if (F.post[i] != (T)77) ++dmg; } std::printf("F %%ld %%d\\n", id, dmg); vh_line("A", id, F.A.data(), %d); }' % n)
         elif c['kind'] == 'FO':
